@@ -8,7 +8,8 @@ from common import run_model
 def run(ctx, n):
     m = ctx.mistune
     r = ctx.rng("html-corr")
-    mds = {(e, hw): m.create_markdown(escape=e, hard_wrap=hw) for e in (False, True) for hw in (False, True)}
+    PX = ["strikethrough", "mark", "insert", "superscript", "subscript", "url"]
+    mds = {(px, e, hw): m.create_markdown(escape=e, hard_wrap=hw, plugins=(PX if px else [])) for px in (False, True) for e in (False, True) for hw in (False, True)}
     cases, want = [], []
     for i in range(n):
         text = corr_block.gen_text(r)
@@ -16,16 +17,19 @@ def run(ctx, n):
             continue
         esc = r.random() < 0.7
         hw = r.random() < 0.2
+        px = r.random() < 0.4
+        if px and r.random() < 0.6:
+            text = text + r.choice(["a ~~b~~ ==c== ^^d^^ e^f^ g~h~ https://x.y/z.\n", "> ~~q *r*~~ and http://a.b\n", "- ==m [n](/u)== ^s\\ t^\n"])
         try:
-            got = mds[(esc, hw)](text)
+            got = mds[(px, esc, hw)](text)
         except RecursionError:
             continue
         except Exception:  # noqa
             got = ["error", "exception"]
-        cases.append(("html", [text, esc, hw]))
+        cases.append(("html", [text, esc, hw, px]))
         want.append(got)
     res = run_model(cases)
-    dis = [{"input": c[1][0], "escape": c[1][1], "hard_wrap": c[1][2], "model": mv, "impl": iv} for c, mv, iv in zip(cases, res, want) if mv != iv]
+    dis = [{"input": c[1][0], "escape": c[1][1], "hard_wrap": c[1][2], "plugins": c[1][3], "model": mv, "impl": iv} for c, mv, iv in zip(cases, res, want) if mv != iv]
     return {"evaluations": len(cases), "disagreements": dis[:20], "samples": [json.dumps(cases[0][1][0])[:200]]}
 
 
